@@ -536,3 +536,6 @@ def skippedArms : List String := ["Compare: `a.(Selector)` is false for every op
 def problems : List String := []
 
 end ZygoVerif.NumGoGood
+
+/-- unfolds every translated definition (helpers included, whatever they are called today). -/
+macro "numgogood_unfold" : tactic => `(tactic| (try simp only [ZygoVerif.NumGoGood.signumFloat, ZygoVerif.NumGoGood.signumInt, ZygoVerif.NumGoGood.signumUint64, ZygoVerif.NumGoGood.cmpInt64, ZygoVerif.NumGoGood.compareInt, ZygoVerif.NumGoGood.compareUint64, ZygoVerif.NumGoGood.compareChar, ZygoVerif.NumGoGood.compareFloat, ZygoVerif.NumGoGood.compareBool, ZygoVerif.NumGoGood.Compare, ZygoVerif.NumGoGood.NumericFloatDo, ZygoVerif.NumGoGood.NumericIntDo, ZygoVerif.NumGoGood.NumericUint64Do, ZygoVerif.NumGoGood.NumericMatchFloat, ZygoVerif.NumGoGood.NumericMatchInt, ZygoVerif.NumGoGood.NumericMatchUint64, ZygoVerif.NumGoGood.NumericMatchChar, ZygoVerif.NumGoGood.NumericDo, ZygoVerif.NumGoGood.UintegerDo, ZygoVerif.NumGoGood.IntegerDo, ZygoVerif.GoSem.bind_ok, ZygoVerif.GoSem.bind_err, ZygoVerif.GoSem.bind_panic, ZygoVerif.GoSem.bind_ok_right, ZygoVerif.GoSem.bind_ite]))
